@@ -229,6 +229,12 @@ T("jacobian_closed_forms", f"""forall (cell : option RV) (mass : nat -> R) (pos 
   - intros ids refs rc H. cbn [cvc_jd cvc_value]. rs. apply Rltb_true in H. rewrite H. f_equal. ring.""",
   "the Jacobian derivative jd of each component (the documented Jacobian term is kT * jd); angle: pi/180 * cot(theta)")
 
+T("jacobian_angle", f"""forall (cell : option RV) (mass : nat -> R) (pos : RF) (g1 g2 g3 : RG) (os : bool),
+  ang_cos Rops cell mass pos g1 g2 g3 * ang_cos Rops cell mass pos g1 g2 g3 < 1 ->
+  cvc_jd {M} pos (CAngle g1 g2 g3 os) =
+    PI / 180 * (ang_cos Rops cell mass pos g1 g2 g3 / sqrt (1 - ang_cos Rops cell mass pos g1 g2 g3 * ang_cos Rops cell mass pos g1 g2 g3))""",
+  "exact angle_jd_closed.", "angle: jd = (pi/180) cot(theta) written in the geometry (cos(theta) = r21.r23/(|r21||r23|)), away from collinear groups")
+
 # write thm_ lemmas
 pro = ["", "(* ================================================================== statements of Properties_C07.v, verbatim *)"]
 for n, st, pf, c in stm:
